@@ -336,19 +336,24 @@ def r4_step_loop(ctx):
     if not empties:
         ctx.fail(RUN + "#step-empty", "no detector.empty(...) inside the step: buckets are never emptied between steps", where=f, node=lp)
         return
+    ND = ("processor.detector.non_destructive_readout", "processor.detector.readout_properties.non_destructive", "readout.non_destructive", "detector.non_destructive_readout", "detector.readout_properties.non_destructive")
+
+    def _nd_polarity(conds):
+        """How the enclosing decisions fix `non_destructive` where the call sits (None = they do not)."""
+        for t, pol in conds:
+            if dotted(expand(f, t)) in ND or dotted(t) in ND:
+                return pol
+        return None
+
     for c in empties:
         arg = arg_or_kw(c, 0, "reset")
         argx = expand(f, arg) if arg is not None else None
-        pol_ok = (
-            isinstance(argx, ast.UnaryOp)
-            and isinstance(argx.op, ast.Not)
-            and dotted(argx.operand)
-            in (
-                "processor.detector.non_destructive_readout",
-                "processor.detector.readout_properties.non_destructive",
-                "readout.non_destructive",
-            )
-        )
+        pol_ok = isinstance(argx, ast.UnaryOp) and isinstance(argx.op, ast.Not) and dotted(argx.operand) in ND
+        if not pol_ok and isinstance(argx, ast.Constant) and isinstance(argx.value, bool):
+            # `if non_destructive: empty(False) else: empty(True)`: the constant must be the negation of
+            # what the enclosing decision says about non_destructive
+            nd = _nd_polarity(enclosing_tests(c, stop=lp))
+            pol_ok = nd is not None and argx.value == (not nd)
         ctx.check(
             pol_ok,
             RUN + "#step-empty-polarity",
@@ -380,21 +385,29 @@ def r5_what_empty_empties(ctx):
     """Detector.empty(reset): scene replaced by a fresh Scene, photon/charge/signal/image emptied unconditionally, pixel emptied exactly under `reset`; each bucket's empty() really resets its storage; MKID.empty forwards reset to super()."""
     f = ctx.func(f"{DET}.empty")
     c = f"{DET}.empty"
+    # decided per path (sa/paths.py; loops over literal bucket tuples are unrolled, getattr(self, "x") is self.x)
+    from sa.paths import enumerate_paths
+
+    epaths = [q for q in enumerate_paths(f.node.body) if q.exit in ("fall", "return")]
+    rp = f.params[1] if len(f.params) > 1 else "reset"
+
+    def emptied(q, b):
+        return [c_ for fn_, c_, _ in q.calls if fn_ in (f"self.{b}.empty", f"self._{b}.empty")]
+
     for b in ("photon", "charge", "signal", "image"):
-        calls = [cl for cl in calls_in(f.node) if dotted(cl.func) in (f"self.{b}.empty", f"self._{b}.empty")]
-        ok = len(calls) == 1 and _unconditional_once(ctx, f, calls[0])
-        ctx.check(ok, c + f"#{b}", f"{b}.empty() on every path" if ok else f"{b} bucket is not emptied unconditionally ({len(calls)} call(s))", where=f, node=calls[0] if calls else f.node)
-    calls = [cl for cl in calls_in(f.node) if dotted(cl.func) in ("self.pixel.empty", "self._pixel.empty")]
-    ok = len(calls) == 1
-    why = "pixel.empty() exactly under `if reset`"
-    if ok:
-        ts = enclosing_tests(calls[0])
-        ok = len(ts) == 1 and ts[0][1] and dotted(ts[0][0]) == f.params[1]
-        if not ok:
-            why = f"pixel.empty() is guarded by {[(norm(t), p) for t, p in ts]} instead of `{f.params[1]}`"
-    else:
-        why = f"{len(calls)} pixel.empty() calls"
-    ctx.check(ok, c + "#pixel", why, where=f, node=calls[0] if calls else f.node)
+        counts = [len(emptied(q, b)) for q in epaths]
+        ok = bool(counts) and all(n_ == 1 for n_ in counts)
+        ctx.check(ok, c + f"#{b}", f"{b}.empty() exactly once on every path" if ok else f"{b} bucket is not emptied unconditionally (calls per path: {counts})", where=f, node=f.node)
+    ok = bool(epaths)
+    why = f"pixel.empty() exactly when `{rp}` holds"
+    for q in epaths:
+        n_ = len(emptied(q, "pixel"))
+        r_ = q.holds(rp)
+        want = 1 if r_ is True else 0 if r_ is False else None
+        if want is None or n_ != want:
+            ok = False
+            why = f"pixel.empty() is called {n_} time(s) on the path {q.cond_texts()} (expected: once exactly when `{rp}` holds)"
+    ctx.check(ok, c + "#pixel", why, where=f, node=f.node)
     # scene
     sc = [st for st, t in stores(f.node, lambda t: dotted(t) in ("self.scene", "self._scene"))]
     sc_calls = [cl for cl in calls_in(f.node) if dotted(cl.func) in ("self.scene.empty", "self._scene.empty")]
